@@ -3,6 +3,8 @@ Deliberately narrow: the single/double bit-identity paths, NaN constants, width 
 structural totality of the half encoder are decided; half-precision arithmetic is declined."""
 from build import AnalysisBroken
 import paths as P
+import decoder_rules as DR15
+import ownership as _O15
 from paths import ptr_key
 import encoder_rules as ER
 import decoder_rules as DR
@@ -46,6 +48,14 @@ def run(ctx, chk):
                                  "computation, negated exactly when the sign bit is set")
     check_half_classes(chk, prog, eff)
     check_half_encode_table(chk, prog, eff)
+    chk.rule("C15.width-serialize", "serializing a float item uses the getter and the encoder of the item's recorded width, unconverted "
+                                    "(a half stays a half whatever its value; shared with C03.width)")
+    import typestate as _ts15
+    from props.c03 import check_width
+    H15, PA15, _IF15, _x15 = ctx.typestate()
+    cache15 = _O15.PathCache(prog, eff)
+    check_width(chk, "C15.width-serialize", prog, eff, cache15, H15, PA15, _ts15.CallSites(prog, eff, cache15, H15, PA15),
+                families=(("cbor_serialize_float_ctrl", ("float", 0xE0)),))
     import shift_rules
     import ownership as _O
     chk.rule("C15.shift-range", "the half encoder's two shifts by a run-time distance stay below the operand width for every exponent "
@@ -333,7 +343,10 @@ def check_half_encode_table(chk, prog, eff):
     for pa in ps:
         enc = pa.calls("_cbor_encode_uint16")
         if len(enc) != 1:
-            raise AnalysisBroken("cbor_encode_half: a path does not end in exactly one 16-bit primitive call")
+            chk.ob("C15.half-total", "cbor_encode_half: every path ends in the 3-byte primitive (encoding is total)", False, where, fn=f.name,
+                   key="half-total:nopath", detail="a path returns %s without handing a 16-bit value to the primitive: some float produces no bytes"
+                   % DR15.fmt_term(pa.ret), path=pa.block_lines())
+            continue
         for t in P.subterms(enc[0].args[0]):
             if isinstance(t, tuple) and t[0] == "reinterpret" and t[2] == ("arg", 0):
                 BITS = t
